@@ -284,4 +284,68 @@ def uniformUnits (ms : List Mapping) : Bool :=
   | [] => true
   | m :: _ => ms.all fun m' => m'.kv.map (·.kb) == m.kv.map (·.kb)
 
+/-! ### mappings that do NOT all print the same key list (no kernel does this within one read of
+    the file: `show_smap` prints `Size`, the `__show_smap` block, `THPeligible`, `ProtectionKey`
+    — a per-system, not per-mapping, condition — and `VmFlags` for every vma; the harness
+    checks it on the live `/proc/self/smaps` on every run) -/
+
+def Mapping.has (m : Mapping) (k : Bytes) : Bool := (m.kv.find? (fun e => e.key == k)).isSome
+
+/-- the value of key `k` in the most recent mapping that printed it (`seen`: the mappings read so
+    far, newest first) -/
+def lastSeen? : List Mapping → Bytes → Option Nat
+  | [], _ => none
+  | m :: ms, k =>
+    match m.kv.find? (fun e => e.key == k) with
+    | some e => some e.val
+    | none => lastSeen? ms k
+
+def lastSeen (seen : List Mapping) (k : Bytes) : Nat := (lastSeen? seen k).getD 0
+
+/-- the row a reader that never forgets a key reports for `m` after having read `seen` -/
+def inheritRow (seen : List Mapping) (m : Mapping) : Row :=
+  { addr := addrStr m, perms := permsStr m, path := m.path.getD anon
+    nums := rowKeys.map fun k => 1024 * lastSeen (m :: seen) k }
+
+/-- `perBlock = true`: the reader forgets everything at each header (then every row is `specRow`) -/
+def inheritRows (perBlock : Bool) : List Mapping → List Mapping → List Row
+  | _, [] => []
+  | seen, m :: ms => inheritRow seen m :: inheritRows perBlock (if perBlock then [] else m :: seen) ms
+
+/-- exactly the files on which a never-forgetting reader is right: no mapping omits a row key
+    that an earlier mapping printed with a non-zero value (the latest one counts) -/
+def noStale : List Mapping → List Mapping → Bool
+  | _, [] => true
+  | seen, m :: ms => rowKeys.all (fun k => m.has k || lastSeen seen k == 0) && noStale (m :: seen) ms
+
+/-- a mapping that is well-formed for its OWN key list (no common list required) -/
+def wfOwn (strips : Bool) (m : Mapping) : Bool :=
+  let keys := m.kv.map (·.key)
+  !keys.isEmpty && keys.Nodup && wfMapping strips keys m
+
+def wfSmapsOwn (strips : Bool) (ms : List Mapping) : Bool := ms.all (wfOwn strips)
+
+/-- every mapping prints the same key list (what every kernel does) -/
+def uniformKeys (ms : List Mapping) : Bool := ms.all fun m => m.kv.map (·.key) == keysOf ms
+
+/-! ### /proc/meminfo — `show_val_kb(m, "MemTotal:       ", …)`: the label padded to 16 columns,
+    the number right-aligned to 8, ` kB`; the HugePages_* counters carry no unit. Same line
+    shape as the smaps key lines (`kvLine`). -/
+
+def bMemTotal : Bytes := [77, 101, 109, 84, 111, 116, 97, 108]     -- "MemTotal"
+def bMemFree : Bytes := [77, 101, 109, 70, 114, 101, 101]          -- "MemFree"
+
+def renderMeminfo (ls : List KV) : Bytes := unlines (ls.map kvLine)
+
+def kvGet (ls : List KV) (k : Bytes) : Option Nat := (ls.find? (fun e => e.key == k)).map (·.val)
+
+/-- total physical memory in bytes: the `MemTotal` line (kB) × 1024 -/
+def memTotal (ls : List KV) : Nat := 1024 * (kvGet ls bMemTotal).getD 0
+
+/-- labels without blanks/colons, each printed once, `MemTotal` and `MemFree` present (the
+    kernel prints them first, unconditionally) -/
+def wfMeminfo (ls : List KV) : Bool :=
+  ls.all (fun e => wfKey e.key) && (ls.map (·.key)).Nodup
+    && (kvGet ls bMemTotal).isSome && (kvGet ls bMemFree).isSome
+
 end Psutil.C13.Spec
